@@ -12,7 +12,7 @@ func (e *Engine) lemmaObligations(id string) []*Obligation {
 		if !a.Lemma || !hasProp(a.Props, id) || a.ByFunc != "" {
 			continue
 		}
-		o := &Obligation{Name: "lemma/" + a.Name, Func: "lemma", Kind: "lemma", Goal: a.term, Props: a.Props, Groups: map[string]bool{a.Group: true}, MinTimeout: 40}
+		o := &Obligation{Name: "lemma/" + a.Name, Func: "lemma", Kind: "lemma", Goal: a.term, Props: a.Props, Groups: map[string]bool{a.Group: true}, MinTimeout: 60}
 		if len(a.From) > 0 {
 			o.Groups = map[string]bool{}
 			for _, g := range a.From {
